@@ -89,6 +89,7 @@ void vx_note(const char *key, const char *fmt, ...)
 void vx_violation(const char *sig, const char *fmt, ...)
     __attribute__((format(printf, 2, 3)));
 void vx_add_counts(long states, long transitions, long traces);
+void vx_set_exhaustive(int yes);
 void vx_add_fault_counts(long evaluations, long nontrivial);
 const char *vx_rundir(void); // scratch dir for this run (removed at finish)
 
